@@ -13,6 +13,11 @@ from hypothesis import strategies as st
 
 from pbt.core import Outcome
 
+TECHNIQUE = "Hypothesis-generated weighted ballots + exhaustive unweighted ballots against a per-strategy reference criterion (exact rationals) and metamorphic monotonicity relations"
+LEVEL_TEXT = ("Exploration: real QuorumSensing/EmergencyQuorum aggregate ballots cast by stub voters; S1-S7 of DESIGN C06 are checked on every case and on "
+              "each single-voter metamorphic variant. Unweighted ballots over 5 vote kinds for up to 4 (quick) / 6 (thorough) voters x all strategies + "
+              "emergency are enumerated completely; weighted ballots, custom thresholds and min_voters are sampled.")
+LEVEL_NOTE = "Stub voters replace AgentProfile.agent; weights/confidences restricted to a finite non-negative grid; BAYESIAN is held only to S2/S4/S6/S7, not to a formula."
 PROPERTY = "C06"
 BUDGET = {"quick": 12000, "thorough": 300000}
 RULE = ("Generated: electorates of 1..7 stub voters with verdict in {PERMIT, EXECUTE, BLOCK, UNKNOWN, DEFER, FAILURE, exception}, "
